@@ -4,6 +4,7 @@ import (
 	"fmt"
 	"go/token"
 	"go/types"
+	"reflect"
 	"strings"
 
 	"golang.org/x/tools/go/ssa"
@@ -82,6 +83,88 @@ func isErrorType(t types.Type) bool {
 func (st *State) newErr(msg *Term) IfaceVal {
 	st.idCounter++
 	return IfaceVal{Dyn: st.eng.errType, V: BuiltinErr{Msg: msg, ID: st.idCounter}}
+}
+
+// provOf: provenance (what struct a text was marshalled from) of a byte string / string value.
+func (st *State) provOf(v Val) []Prov {
+	switch x := v.(type) {
+	case BytesVal:
+		if len(x.Prov) > 0 {
+			return x.Prov
+		}
+		return st.provOfTerm(x.S)
+	case *Term:
+		return st.provOfTerm(x)
+	}
+	return nil
+}
+
+func (st *State) provOfTerm(t *Term) []Prov {
+	if t == nil {
+		return nil
+	}
+	if p, ok := st.prov[t.S]; ok {
+		return p
+	}
+	if t.Tail != nil {
+		return st.provOfTerm(t.Tail)
+	}
+	return nil
+}
+
+func (st *State) setProv(v Val, p []Prov) {
+	if len(p) == 0 {
+		return
+	}
+	switch x := v.(type) {
+	case BytesVal:
+		st.prov[x.S.S] = p
+	case *Term:
+		st.prov[x.S] = p
+	case TupleVal:
+		for _, e := range x {
+			st.setProv(e, p)
+		}
+	}
+}
+
+func (st *State) assumeMinLen(v Val, n int) {
+	switch x := v.(type) {
+	case BytesVal:
+		st.assume(Cmp(">=", StrLen(x.S), BV(64, uint64(n)), true))
+	case *Term:
+		if x.Sort.K == KStr {
+			st.assume(Cmp(">=", StrLen(x), BV(64, uint64(n)), true))
+		}
+	case TupleVal:
+		for _, e := range x {
+			st.assumeMinLen(e, n)
+		}
+	}
+}
+
+func jsonTopKeys(t types.Type) []string {
+	var out []string
+	if t == nil {
+		return out
+	}
+	if p, ok := t.Underlying().(*types.Pointer); ok {
+		t = p.Elem()
+	}
+	stt, ok := t.Underlying().(*types.Struct)
+	if !ok {
+		return out
+	}
+	for i := 0; i < stt.NumFields(); i++ {
+		name := stt.Field(i).Name()
+		if tag := reflect.StructTag(stt.Tag(i)).Get("json"); tag != "" && tag != "-" {
+			if n := strings.Split(tag, ",")[0]; n != "" {
+				name = n
+			}
+		}
+		out = append(out, name)
+	}
+	return out
 }
 
 func (st *State) strArg(v Val) *Term {
@@ -256,6 +339,27 @@ func (st *State) callExtern(g *G, fr *Frame, name string, fn *ssa.Function, args
 	// ---- strings / bytes ----
 	case "strings.Contains", "bytes.Contains":
 		h, n := st.strArg(args[0]), st.strArg(args[1])
+		if pv := st.provOf(args[0]); len(pv) > 0 && n.Const {
+			// WIRE-RT: the text is the library's own marshalling of a known struct
+			for _, p := range pv {
+				if p.Kind != "marshal" {
+					continue
+				}
+				keys := jsonTopKeys(p.T)
+				if strings.HasPrefix(n.Str, "\"") && strings.HasSuffix(n.Str, "\":{") {
+					k := n.Str[1 : len(n.Str)-3]
+					for _, kk := range keys {
+						if kk == k {
+							return True, false
+						}
+					}
+					return False, false
+				}
+				if n.Str == "datagram" {
+					return False, false // handshake structs carry no datagram member
+				}
+			}
+		}
 		r := StrContains(h, n)
 		if !h.Const && n.Const {
 			st.containsObs = append(st.containsObs, containsObs{Hay: h.S, Needle: n.Str, T: r})
@@ -491,7 +595,14 @@ func (st *State) cutCall(kind, name string, args []Val, sig *types.Signature) Va
 				}
 			}
 		}
-		// carry provenance through
+		// carry provenance through (side table, survives string conversions)
+		for _, a := range args {
+			if pv := st.provOf(a); len(pv) > 0 {
+				st.setProv(v, pv)
+				// a marshalled library struct is a non-empty JSON object in either notation: at least 3 bytes
+				st.assumeMinLen(v, 3)
+			}
+		}
 		if bv, ok := v.(BytesVal); ok {
 			for _, a := range args {
 				if ab, ok := a.(BytesVal); ok {
@@ -874,6 +985,31 @@ func (st *State) jsonUnmarshal(args []Val) Val {
 		}
 		return cc.err
 	}
+	// WIRE-RT: text marshalled by the library from a struct of type T' parses into T' unchanged,
+	// into any other struct type it yields the zero value without error (unknown members are ignored)
+	if pv := st.provOf(args[0]); len(pv) > 0 {
+		for _, p := range pv {
+			if p.Kind != "marshal" || p.T == nil {
+				continue
+			}
+			src := p.T
+			val := p.V
+			if pp, ok := src.Underlying().(*types.Pointer); ok {
+				src = pp.Elem()
+				if pval, ok := val.(PtrVal); ok && pval.L != nil {
+					val = st.load(pval.L)
+				}
+			}
+			st.eng.stubs["encoding/json round trip of the library's own structs (WIRE-RT)"] = true
+			if types.Identical(src, l.T) {
+				st.store(l, val)
+			} else {
+				st.store(l, st.zero(l.T))
+			}
+			st.jsonCache[key] = cached{err: IfaceVal{}, val: st.load(l)}
+			return IfaceVal{}
+		}
+	}
 	// empty input is always an error ("unexpected end of JSON input")
 	if data.Const && data.Str == "" {
 		er := st.newErr(Str("unexpected end of JSON input"))
@@ -903,7 +1039,9 @@ func (st *State) jsonMarshal(args []Val) Val {
 	iv, _ := args[0].(IfaceVal)
 	s := st.freshVar("marshal", SStr)
 	st.eng.stubs["encoding/json.Marshal(opaque text with provenance, never fails for library structs)"] = true
+	st.assume(Cmp(">=", StrLen(s), BV(64, 3), true))
 	bv := BytesVal{S: s, IsNil: False, Prov: []Prov{{Kind: "marshal", T: iv.Dyn, V: iv.V}}}
+	st.prov[s.S] = bv.Prov
 	return TupleVal{bv, IfaceVal{}}
 }
 
